@@ -1129,7 +1129,10 @@ func (p *PairV2) AddLastSwapStepWithOrders(amount0In, amount1Out *big.Int, buy b
 		return p.reverse().AddLastSwapStepWithOrders(big.NewInt(0).Neg(amount1Out), big.NewInt(0).Neg(amount0In), !buy).Reverse()
 	}
 
+	// released by defer: the calculations below panic on inconsistent amounts (for instance a quote
+	// taken before the pool changed), and a caller that recovers must not leave the book locked
 	p.lockOrders.Lock()
+	defer p.lockOrders.Unlock()
 
 	var orders []*Limit
 	if buy {
@@ -1268,8 +1271,6 @@ func (p *PairV2) AddLastSwapStepWithOrders(amount0In, amount1Out *big.Int, buy b
 			mu:           &sync.RWMutex{},
 		})
 	}
-
-	p.lockOrders.Unlock()
 
 	pair.updateOrders(oo)
 
